@@ -12,6 +12,7 @@ import (
 	"strconv"
 	"strings"
 	"sync"
+	"sync/atomic"
 	"testing"
 	"time"
 
@@ -350,13 +351,48 @@ type childSrv struct {
 	werr   error
 }
 
+var portCounter int64
+
+// freePort picks a port below the ephemeral range (so that outgoing connections never take it), spread by
+// process id so that concurrently running check processes do not pick the same candidates.
 func freePort() int {
-	l, err := net.Listen("tcp", "127.0.0.1:0")
-	if err != nil {
-		panic(err)
+	for i := 0; i < 2000; i++ {
+		n := atomic.AddInt64(&portCounter, 1)
+		p := 20000 + int((int64(os.Getpid())*131+n*7)%12000)
+		l, err := net.Listen("tcp", fmt.Sprintf("127.0.0.1:%d", p))
+		if err != nil {
+			continue
+		}
+		l.Close()
+		l2, err := net.Listen("tcp", fmt.Sprintf(":%d", p))
+		if err != nil {
+			continue
+		}
+		l2.Close()
+		return p
 	}
-	defer l.Close()
-	return l.Addr().(*net.TCPAddr).Port
+	panic("no free port")
+}
+
+// startOnFreePorts configures fresh ports and starts the server, retrying when another process grabbed a port in between.
+func startOnFreePorts(srv *redis.Server, withTLS bool) (port, tlsPort int, err error) {
+	for attempt := 0; attempt < 8; attempt++ {
+		port = freePort()
+		srv.SetPort(port)
+		if withTLS {
+			tlsPort = freePort()
+			srv.SetTLSPort(tlsPort)
+		}
+		err = srv.Start()
+		if err == nil {
+			return
+		}
+		srv.Stop()
+		if !strings.Contains(err.Error(), "address already in use") {
+			return
+		}
+	}
+	return
 }
 
 func startChildServer(asLimit uint64) (*childSrv, error) {
